@@ -26,19 +26,14 @@ pub(crate) fn c07_machine_resets() {
     vassert!(m.step_mode() == old.step_mode(), "C07.R.machine.step-mode-untouched");
 }
 
-/// R.load — image of (bounded) symbolic length spread over three lines with symbolic bytes.
-/// BOUNDED in the image length (<= 6 bytes here; the fill loop is uniform in the address).
-#[cfg_attr(kani, kani::proof)]
-#[cfg_attr(kani, kani::unwind(10))]
-pub(crate) fn c07_load() {
+/// R.load — images of fixed small shapes over three lines (line lengths concrete so that the loops of
+/// `load` have concrete trip counts whatever their form), bytes, limits and the whole pre-state symbolic.
+/// BOUNDED in the image length (the shapes below); the fill loop is uniform in the address.
+fn load_shape(n1: usize, n2: usize) {
     let mut m = any_machine();
     let old = m.clone();
     let bytes: [u8; 6] = vany();
-    let n1: usize = vany();
-    let n2: usize = vany();
-    vassume(n1 <= 3 && n2 <= 3);
-    vcover!(n1 == 3 && n2 == 2, "pre.shape");
-    vcover!(n1 == 0 && n2 == 0, "pre.empty-image");
+    vcover!(true, "pre.shape");
     let l1: Vec<u8> = bytes[..n1].to_vec();
     let l2: Vec<u8> = bytes[3..3 + n2].to_vec();
     let ss = any_stacksize();
@@ -76,6 +71,18 @@ pub(crate) fn c07_load() {
     vassert!(m.programsize() == exp_ps, "C07.R.load.programsize-applied");
     vassert!(m.step_mode() == old.step_mode(), "C07.R.load.step-mode-untouched");
 }
+macro_rules! load_harness {
+    ($name:ident, $n1:expr, $n2:expr) => {
+        #[cfg_attr(kani, kani::proof)]
+        #[cfg_attr(kani, kani::unwind(10))]
+        pub(crate) fn $name() {
+            load_shape($n1, $n2)
+        }
+    };
+}
+load_harness!(c07_load_empty, 0, 0);
+load_harness!(c07_load_3_2, 3, 2);
+load_harness!(c07_load_1_3, 1, 3);
 
 /// Thorough tier: the "followed by zeros" clause again with an unwind bound that covers loops over the
 /// whole RAM (a rewritten fill that iterates over all 240 cells is then unwound completely instead of
@@ -120,4 +127,4 @@ fn cpu_side_reset_post_but_limits(old: &RawMachine, new: &RawMachine) -> bool {
     cpu_side_reset_post(&o, new)
 }
 
-crate::replay_table!(verif_replay_c07m; c07_machine_resets, c07_load, c07_x_load_empty_clears_stale_ram, c07_x_load_one_byte_clears_stale_ram,);
+crate::replay_table!(verif_replay_c07m; c07_machine_resets, c07_load_empty, c07_load_3_2, c07_load_1_3, c07_x_load_empty_clears_stale_ram, c07_x_load_one_byte_clears_stale_ram,);
